@@ -1403,3 +1403,11 @@ MUTANTS += [
             announce_interval: config.protocol.peer_announce_interval,
         });""")]),
 ]
+
+MUTANTS += [
+ dict(id="C16-request-window-not-reset", props=["C16"], expect={"C16": r"window#restart_and_growth"},
+      edits=[(HCN, "        self.request_buffer_position = 0;\n\n", "")]),
+ dict(id="BENIGN-C16-window-reset-when-request-is-handed-out", props=["C16", "C12"], benign=True,
+      edits=[(HCN, "        self.request_buffer_position = 0;\n\n", ""),
+             (HCN, "                    return Ok((request, opt_peer_addr));", "                    self.request_buffer_position = 0;\n\n                    return Ok((request, opt_peer_addr));")]),
+]
